@@ -170,6 +170,13 @@ def stepExpire (w : SWin) (x : Int) : SWin × List Emission :=
   ({ w with sessions := keep, trig := trig2 },
    ex.map (fun s => { late := false, key := s.key, start := s.start, stop := s.stop, rows := s.rows }))
 
+/-- manual flush (`Trigger()`, public as `TriggerWindow`): every open session is delivered as it stands and
+forgotten; nothing is registered for late data. Not an op of `step`: the theorems about watermark-driven
+delivery do not speak about it; conservation is `flushAll_rows`. -/
+def flushAll (w : SWin) : SWin × List Emission :=
+  ({ w with sessions := [] },
+   (sortSess w.sessions).map (fun s => { late := false, key := s.key, start := s.start, stop := s.stop, rows := s.rows }))
+
 def init (timeout ooo lateness : Int) : SWin := { timeout := timeout, lateness := lateness, wm := { maxOOO := ooo } }
 
 end Session
